@@ -35,7 +35,8 @@ def jobs(tier):
     from . import C10
     hist = [([1], None), ([1, 2], None)] + [([1, 1], k) for k in range(0, 5)]
     if tier == "thorough":
-        hist += [([1, 4], k) for k in range(0, 6)] + [([1, 1, 1], k) for k in range(0, 7)]
+        # (measured: the failure-free and late-failure variants of these longer histories run out of memory or need > 20 min)
+        hist += [([1, 4], k) for k in range(1, 5)] + [([1, 1, 1], k) for k in range(1, 4)]
     for seq, k in hist:
         # two-operation histories: the final lookups (whose own allocations fail in the one-operation job) are left out
         noq = ["QUERY_SKI_ONLY", "QUERY_ALL_ONLY"] if len(seq) > 1 else []
@@ -60,7 +61,7 @@ def jobs(tier):
     # (store increment 1: the PDU store is allocated by the first and grown by the second record of a kind)
     sk = [([CR, V4, EOD], 2), ([CR, V6, EOD], 2), ([CR, KEY, EOD], 2), ([CR, V4, V4, EOD], 1), ([CR, KEY, KEY, EOD], 1)]
     if tier == "thorough":
-        sk += [([CR, V6, V6, EOD], 1), ([CR, V4, V4, V4, EOD], 2), ([CR, V4, V6, KEY, EOD], 2)]
+        sk += [([CR, V6, V6, EOD], 1), ([CR, V4, V4, V4, EOD], 2)]
     for skel, inc in sk:
         j = sync_job("ASSERT_C18", skel, extra=["ALLOC_FAIL"], timeout=2400, store_inc=inc)
         j.name = "allocfail_" + j.name + ("" if inc == 2 else "_inc%d" % inc)
